@@ -276,8 +276,69 @@ pub fn sonic_trim(r: &TrimReq, seed: u64) -> Verdict {
 }
 
 /// transparent setups: generators distinct, non-identity, reproducible; IPA trim is a prefix
+/// the k-th transparent generator as the schemes document it: the first of H(name || k), H(name || k || 0),
+/// H(name || k || 1), ... (k, j as 8-byte little-endian) that maps to a group element
+fn derive_generator(name: &[u8], k: u64) -> (SF, usize) {
+    use blake2::{Blake2s256, Digest};
+    let h = Blake2s256::digest([name, &k.to_le_bytes()].concat().as_slice());
+    if let Some(g) = <crate::engine::grp::TA<1> as ark_ec::AffineRepr>::from_random_bytes(&h) {
+        return (g.0, 0);
+    }
+    let mut j = 0u64;
+    loop {
+        let mut b = name.to_vec();
+        b.extend(k.to_le_bytes());
+        b.extend(j.to_le_bytes());
+        let h = Blake2s256::digest(b.as_slice());
+        if let Some(g) = <crate::engine::grp::TA<1> as ark_ec::AffineRepr>::from_random_bytes(&h) {
+            return (g.0, j as usize + 1);
+        }
+        j += 1;
+    }
+}
+
 pub fn transparent(seed: u64) -> Verdict {
     let mut rng = StdRng::seed_from_u64(seed);
+    // derivation from the protocol seed, on sizes where the hash-to-group retry loop is taken
+    let mut retries = 0;
+    for maxd in [1usize, 6, 15, 31] {
+        let a = IpaPC::setup(maxd, None, &mut rng).unwrap();
+        let n = (maxd + 1).next_power_of_two();
+        let mut all: Vec<SF> = a.comm_key.iter().map(|g| g.0).collect();
+        all.push(a.s.0);
+        all.push(a.h.0);
+        if all.len() != n + 2 {
+            return Verdict::viol("ipa-size", format!("max_degree {}: {} generators besides h and s", maxd, a.comm_key.len()));
+        }
+        for (k, g) in all.iter().enumerate() {
+            let (want, r) = derive_generator(IpaPC::PROTOCOL_NAME, k as u64);
+            retries += r;
+            if g.v != want.v {
+                return Verdict::viol("ipa-generator-derivation", format!("max_degree {}: generator {} (comm_key, then s, then h) is not the hash-derived element for index {} ({} retries)", maxd, k, k, r));
+            }
+        }
+    }
+    for nv in [2usize, 4, 6, 8] {
+        let a = HyraxPCS::setup(1, Some(nv), &mut rng).unwrap();
+        let mut all: Vec<SF> = a.com_key.iter().map(|g| g.0).collect();
+        all.push(a.h.0);
+        if all.len() != (1 << (nv / 2)) + 1 {
+            return Verdict::viol("hyrax-size", "com_key length is not 2^(n/2)");
+        }
+        for (k, g) in all.iter().enumerate() {
+            let (want, r) = derive_generator(ark_poly_commit::hyrax::PROTOCOL_NAME, k as u64);
+            retries += r;
+            if g.v != want.v {
+                return Verdict::viol("hyrax-generator-derivation", format!("{} variables: generator {} (com_key, then h) is not the hash-derived element for index {} ({} retries)", nv, k, k, r));
+            }
+            if g.v.is_zero() || all[..k].iter().any(|o| o.v == g.v) {
+                return Verdict::viol("hyrax-generators-coincide", format!("{} variables: generator {} is the identity or repeats an earlier one", nv, k));
+            }
+        }
+    }
+    if retries == 0 {
+        return Verdict::Discard("driver: no index needed a second hash; the retry loops were not exercised".into());
+    }
     for maxd in [1usize, 3, 6] {
         let a = IpaPC::setup(maxd, None, &mut rng).unwrap();
         let b = IpaPC::setup(maxd, None, &mut StdRng::seed_from_u64(seed + 9)).unwrap();
@@ -374,6 +435,22 @@ pub fn prepared(seed: u64) -> Verdict {
             }
         }
         cur = cur + cur;
+    }
+    // the trait-level prepared commitment of the Sonic/KZG10 commitment type: doublings for (at least) the
+    // 128 bits of an opening challenge
+    {
+        use ark_poly_commit::PCPreparedCommitment;
+        let tp = <ark_poly_commit::sonic_pc::PreparedCommitment<ToyPairing> as PCPreparedCommitment<Commitment<ToyPairing>>>::prepare(&c);
+        if tp.0.len() < 128 {
+            return Verdict::viol("prepared-comm", format!("trait-level prepared commitment has {} doublings, fewer than a 128-bit challenge needs", tp.0.len()));
+        }
+        let mut cur = c.0 .0;
+        for (i, g) in tp.0.iter().enumerate() {
+            if (i < 12 || i + 4 > tp.0.len()) && g.0 != cur {
+                return Verdict::viol("prepared-comm", format!("trait-level prepared commitment element {} is not 2^{} * C", i, i));
+            }
+            cur = cur + cur;
+        }
     }
     use ark_poly_commit::PCPreparedVerifierKey;
     let mpvk = ark_poly_commit::marlin_pc::PreparedVerifierKey::prepare(&vk);
